@@ -3,14 +3,15 @@ PROPERTY = "C05"
 EXPLANATION = ("Fork decision of the inclusive gateway: real newInclusiveGateway / run / trySync / flowTracker / distributeFlows and the real flow loop "
                "(probeAction and flowAction arms) for a token positioned at the gateway of an instance built by NewProcess; the truth value of every "
                "condition is a solver variable, downstream nodes are recording sinks, the scheduler is symbolic. "
-               "The inclusive JOIN (release exactly once per fork activation, decided from the asynchronously maintained picture of live tokens) "
+               "Join: the bookkeeping of the join's picture of live tokens (flowTracker.handleTrace, activeFlowsInCohort) is decided over trace histories (C05.b); the release decision itself "
                "is NOT covered by a registered scenario: its smallest scenario (fork gateway, two branches, join gateway, two flow trackers) did not close "
                "within the time budget of this engine.")
 ASSUMPTIONS = ["expression engines replaced by an oracle returning one symbolic boolean per conditional flow",
                "tracer replaced by the synchronous stub (contract established by C09)",
                "the gateway's flow tracker (asynchronously maintained picture of live tokens) is replaced by a stand-in answering that the asking flow is the only live flow of its cohort - the situation of one token reaching a forking gateway; with the real tracker goroutine the smallest scenario did not close within the budget",
                "the gateway's re-queue path (probe report before the second request) is followed at most once (stated cut)",
-               "bounds: 1..3 conditional flows, default absent or at every list position, one token"]
+               "bounds: 1..3 conditional flows, default absent or at every list position, one token",
+               "C05.b: flowTracker.handleTrace / activeFlowsInCohort driven directly (no goroutine) with solver-chosen trace histories and compared with a reference picture of live flows; the join's release decision (trySync over this picture under a real schedule) is not covered"]
 SL = {"inclusiveGateway).run": 1}
 OV = dict(STD)
 OV[ROOT + ".newFlowTracker"] = "verifNewFlowTracker"
@@ -28,4 +29,12 @@ def sc(n, d, tiers=("quick", "thorough"), K=110):
                 bounds="%d conditional flows (all truth assignments), default %s" % (n, "absent" if d < 0 else "at list position %d" % d))
 
 
-SCENARIOS = [sc(1, -1), sc(2, -1), sc(2, 0), sc(2, 1), sc(2, 2), sc(3, 1, ("thorough",)), sc(3, -1, ("thorough",))]
+def tr(L, tiers=("quick", "thorough")):
+    return dict(name="C05.b join bookkeeping L=%d" % L, entry="VerifC05b_Tracker_L%d" % L, K=4 * L + 10, reach=["end"], sequential=True, tiers=tiers,
+                max_instr=3000000, map_perm=False,
+                expect_obligations=["the tracker knows that a flow has been created towards its node from the first such trace on, and never forgets it",
+                                    "the tracker's set of live flows is exactly the flows created and not yet terminated"],
+                bounds="trace histories of length %d over 3 flow ids x {created towards the join, created elsewhere, tagged by an inclusive fork, terminated}" % L)
+
+
+SCENARIOS = [tr(2), tr(3), tr(4, ("thorough",)), sc(1, -1), sc(2, -1), sc(2, 0), sc(2, 1), sc(2, 2), sc(3, 1, ("thorough",)), sc(3, -1, ("thorough",))]
